@@ -151,6 +151,9 @@ class LOC(dns.rdata.Rdata):
         _check_coordinate_list(longitude, -180, 180)
         self.longitude = tuple(longitude)  # pyright: ignore
         self.altitude = float(altitude)
+        # The wire form is an unsigned 32-bit count of centimeters above -100000.00m.
+        if not -10000000.0 <= self.altitude < 4284967296.0:
+            raise ValueError("bad altitude value")
         self.size = float(size)
         self.horizontal_precision = float(hprec)
         self.vertical_precision = float(vprec)
